@@ -105,9 +105,9 @@ func c09Spaces(tier string) []pairLeg {
 		add("A2cont", Arr(2, "cont"))
 		add("U3", U(3))
 		add("hostile", thin(HostileDocs(), 220))
-		add("hostile-arrays", HostileArrays())
+		add("hostile-arrays", thin(HostileArrays(), 150))
 		add("hostile2", HostileDocs2())
-		add("large", Large())
+		add("large", Large().Filter(func(v V) bool { return len(ref.JSON(v)) < 6000 }))
 		add("deep", Deep(true))
 		add("mixed", Mixed())
 		add("E1", EditStates(1, 200))
